@@ -1,15 +1,16 @@
 /-
 C20 — ValueMapping implements the DSP0004 ValueMap/Values semantics.
 ONLY property theorems, non-vacuity examples and witnesses; helper lemmas are in
-Proofs/Lemmas/{IntLit,ValueMap,ValueMap2,ValueMap3}.lean.  The model (Model/ValueMap.lean) mirrors
+Proofs/Lemmas/{IntLit,ValueMap,ValueMap2,ValueMap3,ValueMap4}.lean.  The model (Model/ValueMap.lean) mirrors
 pywbem/_valuemapping.py after the fix: commits of C20; `Spec` is the short reading of the property
 statement (parse every entry, resolve open ends against the neighbours' closed ends and the type
 limits, `claims` = exact entry, else first enclosing range, else unclaimed).
 -/
-import Proofs.Lemmas.ValueMap3
+import Proofs.Lemmas.ValueMap4
 
 namespace C20
-open Pywbem.Proto Pywbem.Model.IntLit Pywbem.Model.ValueMap Pywbem.Model.ValueMap.Spec Proofs.ValueMap
+open Pywbem.Proto Pywbem.Model.IntLit Pywbem.Model.IntLit.Dsp0004 Pywbem.Model.ValueMap Pywbem.Model.ValueMap.Spec
+open Proofs.ValueMap Proofs.IntLit
 
 /-- **Construction = spec.**  For every element (any type name, Values/ValueMap present or not, any
     strings as entries, any sizes, any values_default) `_create_for_element` fails exactly when the
@@ -283,6 +284,94 @@ theorem C20_reconcile_spec (values0 vmap : List Str) (vd : Option Str) :
           rw [List.getElem?_append_right h1]
           simp [List.getElem?_replicate]; omega
       · omega
+
+
+/-- **Entry parsing = the declarative entry grammar**: an entry is accepted (and read as `r`) iff it is
+    ".." , an integer literal, or `[literal] ".." [literal]` with at least one end given — the regular
+    expression `^(.*)\.\.(.*)\Z` (greedy split at the last "..", no newline) adds and loses nothing. -/
+theorem C20_entry_grammar (s : Str) (r : Raw) : parseEntry s = some r ↔ IsEntry s r :=
+  parseEntry_iff_isEntry s r
+
+/-- **No ValueMap qualifier ⇒ DSP0004 default of 0-based consecutive numbers**: for every integer type,
+    every Values array and every values_default the resolved entries are exactly 0, 1, …, n-1. -/
+theorem C20_no_valuemap_default (typ : String) (T : IntType) (hT : intTypeOf typ = some T) (vals : List Str)
+    (vd : Option Str) :
+    specCreate ⟨typ, some vals, none⟩ vd =
+      .ok ((List.range vals.length).map (fun (i : Nat) => some ((i : Int), (i : Int))), vals) :=
+  specCreate_default typ T hT vals vd
+
+/-- non-vacuity: a default mapping of three strings on a sint8 element -/
+example : (match create ⟨"sint8", some ["a".toList, "b".toList, "c".toList], none⟩ none with
+           | .ok vm => decide (tovalues vm 2 = .ok "c".toList ∧ tovalues vm 3 = .error .valueError ∧
+                               tovalues vm (-1) = .error .valueError)
+           | .error _ => false) = true := by decide +kernel
+
+/-! ### integer literals of ValueMap entries vs the DSP0004 grammar -/
+
+/-- **The recogniser accepts only DSP0004 integerValue strings, with the DSP0004 value** (binary, octal,
+    decimal, hex; optional sign; value = positional value of the digits). -/
+theorem C20_intlit_sound (s : Str) (v : Int) (h : integerValueToInt s = some v) : IsIntegerValue s v :=
+  intlit_sound h
+
+/-- **… and accepts every DSP0004 integerValue — partial**: except octal literals with a digit 0 after
+    the leading 0 (known finding C20-KF1; OCTAL_VALUE has the digit class [1-7]).
+    Full statement (fails, next theorem): `∀ s v, IsIntegerValue s v → integerValueToInt s = some v`. -/
+theorem C20_intlit_complete_partial (s : Str) (v : Int) (h : IsIntegerValue s v) (hk : ¬ OctalWithZeroDigit s) :
+    integerValueToInt s = some v :=
+  intlit_complete_partial h hk
+
+theorem C20_intlit_complete_fails_at : ¬ (∀ s v, IsIntegerValue s v → integerValueToInt s = some v) := by
+  intro h
+  have := h _ _ intlit_octal_zero_witness.1
+  rw [intlit_octal_zero_witness.2.1] at this
+  cases this
+
+/-- non-vacuity of the hypothesis: a literal outside the excluded class, one inside -/
+example : ¬ OctalWithZeroDigit ['0', '1', '7'] := by
+  rintro ⟨sg, ds, h1, _, _, h4⟩
+  cases sg <;> simp [Sign.chars] at h1
+  subst h1; simp at h4
+example : integerValueToInt "-0x1F".toList = some (-31) ∧ integerValueToInt "+101b".toList = some 5 ∧
+    integerValueToInt "017".toList = some 15 ∧ integerValueToInt "08".toList = none := by decide
+
+/-! ### NULL-valued qualifiers (known finding C20-KF2) -/
+
+/-- `createQ` (qualifier values may be NULL) is `create` whenever no qualifier value is NULL -/
+theorem C20_createQ_eq_create (e : ElemQ) (vd : Option Str)
+    (hn : e.values ≠ some none ∧ e.valuemap ≠ some none) :
+    createQ e vd = create ⟨e.typ, e.values.bind id, e.valuemap.bind id⟩ vd := by
+  obtain ⟨typ, values, valuemap⟩ := e
+  unfold createQ
+  cases hT : intTypeOf typ with
+  | none => simp [create, hT]
+  | some T =>
+    simp only
+    cases values with
+    | none => simp [create, hT]
+    | some vo =>
+      cases vo with
+      | none => simp at hn
+      | some vals =>
+        cases valuemap with
+        | none => simp
+        | some mo =>
+          cases mo with
+          | none => simp at hn
+          | some m => simp
+
+/-- **only ModelError / ValueError escape — partial**: for elements without NULL-valued qualifiers.
+    Full statement (fails, next theorem): no hypothesis `hn`. -/
+theorem C20_createQ_only_model_or_value_error_partial (e : ElemQ) (vd : Option Str)
+    (hn : e.values ≠ some none ∧ e.valuemap ≠ some none) (x : PyExc) (h : createQ e vd = .error x) :
+    x = .modelError ∨ x = .valueError := by
+  rw [C20_createQ_eq_create e vd hn] at h
+  exact C20_create_only_model_or_value_error _ vd x h
+
+theorem C20_createQ_null_value_leaks_fails_at :
+    ¬ (∀ (e : ElemQ) (vd : Option Str) (x : PyExc), createQ e vd = .error x → x = .modelError ∨ x = .valueError) := by
+  intro h
+  have := h ⟨"uint8", some none, none⟩ none .typeError (by decide)
+  simp at this
 
 /-- the integer type limits regenerated from pywbem/_cim_types.py are the DSP0004 ones -/
 theorem C20_int_type_limits :
